@@ -284,6 +284,8 @@ class Alg:
         return self.canon(t)
 
     def leaf(self, x):
+        if x[0] == "revd":
+            return ("revd", self.leaf(x[1]))
         if x[0] == "range":
             return ("range", self.canon(x[1]), self.canon(x[2]))
         if x[0] == "mutrefs":
@@ -354,6 +356,43 @@ class Alg:
             return any(self.has_EI(a) for m, _ in t[1] for a, _ in m)
         return any(self.has_EI(x) for x in t[1:] if isinstance(x, tuple))
 
+    def unreverse(self, t):
+        """For order-insensitive summaries (plain sums) and for Horner folds (whose reversal is accounted for by the
+        recurrence): if *every* element atom of `t` comes from a reversed leaf and the index itself is unused, the same
+        term over the leaves in their original order; else None."""
+        st = {"rev": 0, "fwd": 0, "idx": 0}
+
+        def scan(x, seen):
+            if not isinstance(x, tuple) or not x or id(x) in seen:
+                return
+            seen.add(id(x))
+            if x[0] == "E":
+                if isinstance(x[1], tuple) and x[1] and x[1][0] == "revd":
+                    st["rev"] += 1
+                else:
+                    st["fwd"] += 1
+                return
+            if x[0] == "I":
+                st["idx"] += 1
+                return
+            if x[0] in ("b", "B"):
+                return
+            for y in (x[1:] if isinstance(x[0], str) else x):
+                scan(y, seen)
+        scan(t, set())
+        if st["rev"] == 0 or st["fwd"] or st["idx"]:
+            return None
+
+        def strip(x):
+            if not isinstance(x, tuple) or not x:
+                return x
+            if x[0] == "E" and isinstance(x[1], tuple) and x[1] and x[1][0] == "revd":
+                return ("E", x[1][1])
+            if x[0] in ("b", "B"):
+                return x
+            return tuple(strip(y) for y in x)
+        return strip(t)
+
     def literal_leaf_len(self, t, _seen=None):
         if not isinstance(t, tuple) or not t:
             return None
@@ -382,6 +421,10 @@ class Alg:
             return acc
         if cv[0] == "V":
             body, n = cv[1], cv[2]
+            ub = self.unreverse(body)
+            if ub is not None:
+                body = self.canon(ub)           # a sum does not depend on the order of its terms
+                cv = ("V", body, n)
             if not isinstance(n, int):
                 # a literal array among the iterated leaves fixes the length (it surfaced after a substitution)
                 L = self.literal_leaf_len(body)
@@ -479,7 +522,7 @@ class Alg:
                 outer = tuple((a, p) for a, p in m if not self.has_EI(a))
                 acc = acc.add(Poly({mono_mul(outer, ((("vs", inner, n), 1),)): co}))
             return self.poly_term(acc)
-        if info.src is not None and info.src[0] == "rev" and not others:
+        if info.src is not None and info.src[0] == "revall" and not others:
             # Horner evaluation from the last element down:  acc' = K*acc + g(elem)  over the reversed sequence
             # ==>  sum_j K^j g(elem_j)  in the original order (acc0 = 0)
             K, G, okh = Poly(), Poly(), True
